@@ -351,7 +351,7 @@ def rule_outbound(rep, tname, m):
         d = sp.simplify(real.replace(max_f, lambda a, b: max_f(*sorted((a, b), key=str))) - want.replace(max_f, lambda a, b: max_f(*sorted((a, b), key=str))))
         ok = (not d.free_symbols - set()) and d.is_number and d >= 1
         detail = "output_frames_next() − (end_idx − last_index)·max(ratio,target) = %s (must be a constant ≥ 1)" % d
-    rep.ob(R, tname, ok,
+    rep.ob(R, tname + ("" if ok else ("/estimate-off" if dep else "/next-ignores-carried-position")), ok,
            detail + ". The number of frames a call writes is bounded by (end_idx − last_index)·max(ratio, target) + 1, and last_index can be as low as −(reach+1) − ceil(1/ratio of the "
            "previous call): after an in-range change from a low to a high ratio more frames are written than output_frames_next()/output_frames_max() advertise", loc(fn),
            sample={"type": tname, "output_frames_next": show(v)[:100]})
